@@ -24,16 +24,18 @@ THEOREMS = [P + t for t in [
     "C11_escape", "C11_escape_injective", "C11_escape_text", "C11_escape_attr", "C11_escape_whitespace_counterexample",
     "C11_make_xml_attrib_counterexample", "C11_schema_generic", "C11_schema_general", "C11_schema_loss",
     "C11_schema_table", "C11_schema_table_spec", "C11_schema_roundtrip", "C11_order", "C11_order_error_iff",
-    "C11_order_lenient_counterexample", "C11_entry_points_agree"]]
+    "C11_order_effective", "C11_order_lenient_counterexample", "C11_entry_points_agree"]]
 LEVEL_TEXT = ("partial: the main clause (write -> load gives an equal database, second write is byte-identical, same encode/decode "
               "behaviour) is established by a differential round trip on the real code only (shipped examples, hand-written documents "
               "covering the element classes the examples lack, generated documents, and every single-field perturbation of them); "
               "Jinja2 rendering and expat are not modelled. Lean theorems cover (a) escaping: unescape(escape s) = s for all strings, with "
               "the XML white-space envelope and the unescaped make_xml_attrib of the pinned commit as counterexample theorems, (b) the "
               "generic schema lemma R ⊆ W → read R (write W e) = restrict R e and the inclusion obligation reads ⊆ writes ∪ allowlist over "
-              "the table regenerated from every from_et and every template on each run, (c) load-order independence of the per-file fold "
+              "the table regenerated from every from_et and every template on each run, (c) load-order independence of the per-file fold, "
+              "of the ODXLINK map and of what refresh() derives from it per layer (communication parameters, inherited objects), "
               "and agreement of the file-type dispatch of the three entry points")
-RULE = ("one case = one database round trip, one load order / entry point, one single-field perturbation (object path, field, new value) or one "
+RULE = ("one case = one database round trip, one load order / entry point / loader call history (of a file set or of one distribution of the layer "
+        "hierarchy over documents), one single-field perturbation (object path, field, new value) or one "
         "escaping string; distinct = distinct (database, path, field, value) resp. file order resp. string; non-trivial = the perturbed value "
         "differs from the original and the writer accepted the database")
 TRUSTED = [
@@ -42,9 +44,14 @@ TRUSTED = [
     "run: every slot occurring in a document written by the real templates must be in the extracted writes, and every slot whose removal from "
     "an input document changes the parsed database must be in the extracted reads",
     "model lean/OdxVerif/Model/Pdx.lean (escape/decodeText/decodeAttr, processAll/links, dispatch) is hand-written; tied to markupsafe.escape, "
-    "expat, Database._process_xml_tree/_build_odxlinks and the suffix tests of add_pdx_file/load_files/load_directory by drv_pdx correspondence",
+    "expat, Database._process_xml_tree/_build_odxlinks and the suffix tests of add_pdx_file/load_files/load_directory by drv_pdx correspondence; "
+    "Part E (PARENT-REF chains unfolded through the ODXLINK map + the C15/C09 models of the two inheritance schemes) is tied to comparam_refs and "
+    "the effective object lists of the real layers after refresh() on the cross-document hierarchy family",
     "comparison of databases = recursive comparison of dataclasses.fields (private attributes = resolved-reference caches ignored, lists in "
     "order); an ODXLINK reference is compared by (ref_id, identity of the object it resolves to) in the whole-database round trip",
+    "derived state of a loaded database = every public property of every layer and of the database, every query method of a layer that takes at "
+    "most a protocol, and every public property of every dataclass object that answers with a scalar / an object with an ODXLINK id / a list "
+    "(pdx_lib.effective_tree; enumerated from the live classes); objects with an id are compared by (class, short name, id)",
 ]
 ASSUMPTIONS = [
     "strict mode (default): a MODEL-VERSION mismatch between files raises; in lenient mode the model version of the database depends on the file "
@@ -54,8 +61,9 @@ ASSUMPTIONS = [
     "Description.text is serialized XHTML by design (Description.from_et) and is perturbed with well-formed markup only",
     "fields not read from the element's own slots (data types handed down from the DOP, layer/response kind implied by the tag, document "
     "fragments implied by the position; list pdx_lib.CONTEXT_FIELDS) are compared in the whole-database round trip but not perturbed on their own",
-    "observed at the three container lists + model version (property anchors); the database short name (index.xml) and the keys of "
-    "auxiliary_files depend on the entry point by construction and are reported as a note only",
+    "observed at the three container lists + model version (property anchors), the derived state of the layers and encode/decode on sample "
+    "messages; the database short name (index.xml) and the keys of auxiliary_files depend on the entry point by construction and are reported "
+    "as a note only",
     "ODX 2.0-only alternatives that the writer (always MODEL-VERSION 2.2.0) does not emit are allow-listed in Props/C11.lean (allowlist)",
 ]
 
@@ -138,7 +146,7 @@ def gen_xml(seed, idx, n_comp=4):
 
 
 def open_db(src, seed=0):
-    """src: 'example:<file name>' | 'rich:<name>' | 'richall' | 'seq:<name>' | 'gen:<idx>'"""
+    """src: 'example:<file name>' | 'rich:<name>' | 'richall' | 'seq:<name>' | 'gen:<idx>' | 'xdoc:<partition>[:rev]'"""
     from odxtools.database import Database
     kind, _, arg = src.partition(":")
     with warnings.catch_warnings():
@@ -160,6 +168,10 @@ def open_db(src, seed=0):
             return db
         if kind == "seq":
             return R.load_docs(R.seq_variants()[arg])
+        if kind == "xdoc":      # the five-layer hierarchy distributed over containers; documents parent first / (rev) child first
+            code, _, rev = arg.partition(":")
+            m = R.xdoc_members(code)
+            return R.load_docs([m[n] for n in R.xdoc_parent_first(code, reverse=bool(rev))])
         if kind == "gen":
             xml, _ = gen_xml(seed, int(arg))
             db = Database()
@@ -207,6 +219,17 @@ def behaviour(db):
                 except Exception as e:
                     res = _exc(e)
                 out.append((dl.short_name, "encode", svc.short_name, res))
+                if not kw and res.startswith("raises"):
+                    # a request with required parameters: give each of them the value 1 (inherited services whose DOPs
+                    # were found by short name in the layer that defines them encode differently per definition)
+                    try:
+                        kw1 = {p.short_name: 1 for p in svc.request.required_parameters}
+                        raw = bytes(svc.encode_request(**kw1))
+                        pdus.add(raw.hex())
+                        res = raw.hex()
+                    except Exception as e:
+                        res = _exc(e)
+                    out.append((dl.short_name, "encode-required=1", svc.short_name, res))
                 try:
                     req = svc.request
                     if req is not None:
@@ -259,6 +282,34 @@ def gen_behaviour(db, comps, seed, idx):
 
 # =================================================================================================
 # the whole-database round trip
+def effective_findings(db, db2, clause, limit=40):
+    """differences between the derived state of two loaded databases (what each layer ends up with after inheritance, its
+    communication parameters and protocols, the answers of its query methods): [(clause, features, observed, detail)]"""
+    try:
+        e1, e2 = L.effective_tree(db), L.effective_tree(db2)
+    except Exception as e:
+        return [("harness-input", ["effective"], L.err_class(e), str(e)[:200])]
+    out = []
+    for d in L.diff(e1, e2, limit=limit):
+        out.append((clause, [effective_feature(d)], observed_of(d), f"{d['path']}: {d['left']} -> {d['right']}"))
+    return out
+
+
+def effective_feature(d):
+    """<layer class>.<property or query> of a difference between two effective images"""
+    import re
+    m = re.match(r"^(?:\.effective)?\.layers\.([^.\[]+/[^.\[]+)\.([A-Za-z_0-9]+)", d["path"])
+    if m:
+        return f"layer.{m.group(2)}"
+    m = re.match(r"^(?:\.effective)?\.lists\.([A-Za-z_0-9]+)", d["path"])
+    if m:
+        return f"database.{m.group(1)}"
+    m = re.match(r"^(?:\.effective)?\.resolved\..*?:([A-Za-z_0-9]+\.[A-Za-z_0-9]+)", d["path"])
+    if m:
+        return m.group(1)
+    return feature_of(d)
+
+
 def feature_of(d):
     return f"{d['cls']}.{d['field']}"
 
@@ -295,6 +346,7 @@ def roundtrip(src, seed=0):
     diffs = L.diff(L.db_tree(db, resolve=True), L.db_tree(db2, resolve=True), limit=300)
     for d in diffs:
         out["findings"].append(("field-preserved", [feature_of(d)], observed_of(d), f"{d['path']}: {d['left']} -> {d['right']}"))
+    out["findings"] += effective_findings(db, db2, "effective-state-preserved")
     pdx2, err = L.write_db(db2)
     if pdx2 is None:
         out["findings"].append(("second-write-raises", ["whole-database"], "write-raises", err))
@@ -405,6 +457,7 @@ def seq_findings(src, seed, ref_members=None):
     else:
         for d in L.diff(L.db_tree(db, resolve=True), L.db_tree(db2, resolve=True), limit=20):
             out.append(("write-sequence", [feature_of(d)], observed_of(d), f"{d['path']}: {d['left']} -> {d['right']}"))
+        out += [("write-sequence",) + f[1:] for f in effective_findings(db, db2, "write-sequence", limit=20) if f[0] != "harness-input"]
     if ref_members is not None and members != ref_members:
         n = next((k for k in sorted(set(members) | set(ref_members)) if members.get(k) != ref_members.get(k)), "?")
         a = (ref_members.get(n) or b"").decode("utf-8", "replace").splitlines()
@@ -603,19 +656,29 @@ def order_images(members, order, how, tmpdir=None, aux=None):
     from odxtools.database import Database
     import odxtools.loadfile as LF
     aux = aux or {}
-    if aux and how != "trees":
+    if aux and not how.startswith("trees"):
         members = {**members, **aux}
         order = (list(aux) + list(order)) if len(order) % 2 else (list(order) + list(aux))
     try:
         with warnings.catch_warnings():
             warnings.simplefilter("ignore")
-            if how == "trees":
+            if how in ("trees", "trees-refresh-twice", "trees-stepwise"):
+                # call histories of the loader: one refresh() at the end / a second refresh() of the complete database /
+                # a refresh() after every document (one that fails because a referenced document is still missing is
+                # abandoned; the last one sees all documents)
                 db = Database()
                 for n, data in aux.items():
                     db.add_auxiliary_file(n, io.BytesIO(data))
                 for n in order:
                     db._process_xml_tree(ElementTree.fromstring(members[n]))
+                    if how == "trees-stepwise" and n != order[-1]:
+                        try:
+                            db.refresh()
+                        except Exception:
+                            pass
                 db.refresh()
+                if how == "trees-refresh-twice":
+                    db.refresh()
             elif how == "zip":
                 buf = io.BytesIO()
                 with zipfile.ZipFile(buf, "w") as z:
@@ -660,9 +723,23 @@ def order_images(members, order, how, tmpdir=None, aux=None):
                     db = LF.load_file(pth)
                 else:
                     db = LF.load_directory(d)
-        return L.sort_containers(L.db_tree(db, resolve=True)), None
+        return loaded_image(db), None
     except Exception as e:
         return None, L.err_class(e)
+
+
+def loaded_image(db):
+    """everything "the loaded database" is: the described attributes of every element (container lists sorted by short name), the
+    state refresh() derives from them (per layer: inherited / overridden objects, communication parameters, protocols, query results)
+    and what the layers do (encode / decode on sample messages)"""
+    img = L.sort_containers(L.db_tree(db, resolve=True))
+    return (img[0], img[1], list(img[2]) + [("effective", L.effective_tree(db)), ("behaviour", ("list", sorted(behaviour(db), key=lambda x: str(x[0]))))])      # (layers follow the container order: grouped by layer name)
+
+
+def image_part(d):
+    """which part of a loaded image a difference lies in"""
+    p = d["path"]
+    return "effective" if p.startswith(".effective") else "behaviour" if p.startswith(".behaviour") else "described"
 
 
 def order_reference(members, aux=None):
@@ -706,12 +783,12 @@ def order_checks(ctx, name, members, rng, n_orders, exhaustive_upto=4, aux=None)
             ctx.histo("order_entry_point", how)
             if img != ref:
                 d = L.diff(ref, img)[:2] if img is not None else []
-                ctx.violate("load-order-independence", [how, "file-order"], err or "differs",
+                ctx.violate("load-order-independence", [how, "file-order"] + sorted({image_part(x) for x in d}), err or "differs",
                             {"kind": "order", "src": name, "order": o, "how": how},
                             f"loading {name} in order {o} via {how} gives a different database ({err or d})")
     tmp = tempfile.mkdtemp(prefix="c11_")
     try:
-        for j, how in enumerate(("zip", "zipobj", "files", "odxfile", "pdxpath", "dir")):
+        for j, how in enumerate(("zip", "zipobj", "files", "odxfile", "pdxpath", "dir", "trees-refresh-twice", "trees-stepwise")):
             o = orders[j % len(orders)]
             sub = os.path.join(tmp, how)
             os.mkdir(sub)
@@ -720,11 +797,218 @@ def order_checks(ctx, name, members, rng, n_orders, exhaustive_upto=4, aux=None)
             ctx.histo("order_entry_point", how)
             if img != ref:
                 d = L.diff(ref, img)[:2] if img is not None else []
-                ctx.violate("load-order-independence", [how, "entry-point"], err or "differs",
+                ctx.violate("load-order-independence", [how, "entry-point"] + sorted({image_part(x) for x in d}), err or "differs",
                             {"kind": "order", "src": name, "order": o, "how": how},
                             f"loading {name} via {how} gives a different database than via _process_xml_tree ({err or d})")
     finally:
         shutil.rmtree(tmp, ignore_errors=True)
+
+
+# ---- cross-document hierarchy family: one five-layer hierarchy, every distribution of the layers over documents, every document order
+def xdoc_orders(code, exhaustive):
+    """orders of the members of partition `code`: every permutation of the container documents (exhaustive) or the parent-first,
+    the child-first order, every rotation of them and every container first once; the two comparam documents go in front, behind,
+    around or into the middle of the containers in turn"""
+    m = R.xdoc_members(code)
+    pf = [n for n in R.xdoc_parent_first(code) if n.endswith(".odx-d")]
+    if exhaustive or len(pf) <= 3:
+        perms = [list(p) for p in itertools.permutations(pf)]
+    else:
+        perms = []
+        for base in (pf, pf[::-1]):
+            for i in range(len(base)):
+                perms.append(base[i:] + base[:i])
+        for i in range(len(pf)):
+            perms.append([pf[i]] + [x for x in pf[::-1] if x != pf[i]])
+        perms = [list(x) for x in dict.fromkeys(tuple(p) for p in perms)]
+    cs, spec = "xcs.odx-cs", "xspec.odx-c"
+    out = []
+    for j, p in enumerate(perms):
+        k = j % 5
+        h = len(p) // 2
+        out.append([cs, spec] + p if k == 0 else p + [spec, cs] if k == 1 else [spec] + p + [cs] if k == 2
+                   else p[:h] + [cs, spec] + p[h:] if k == 3 else [cs] + p + [spec])
+    return m, out
+
+
+def xdoc_findings(code, exhaustive, hows=("trees",)):
+    """-> (number of cases, [(features, observed, witness, what)])"""
+    members, orders = xdoc_orders(code, exhaustive)
+    members = {n: x.encode() for n, x in members.items()}
+    ref, ref_order, err0 = None, None, None
+    imgs = []
+    tmp = tempfile.mkdtemp(prefix="c11x_")
+    try:
+        for j, o in enumerate(orders):
+            how = hows[j % len(hows)]
+            sub = os.path.join(tmp, str(j))
+            os.mkdir(sub)
+            img, err = order_images(members, o, how, sub)
+            shutil.rmtree(sub, ignore_errors=True)
+            imgs.append((o, how, img, err))
+            if ref is None and img is not None:
+                ref, ref_order = img, o
+    finally:
+        shutil.rmtree(tmp, ignore_errors=True)
+    out = []
+    for o, how, img, err in imgs:
+        if ref is None or img != ref:
+            d = L.diff(ref, img)[:2] if img is not None and ref is not None else []
+            out.append(([how, "file-order"] + sorted({image_part(x) for x in d}), err or "differs",
+                        {"kind": "xdoc-order", "code": code, "order": o, "how": how, "ref_order": ref_order},
+                        f"hierarchy distributed as {code} over the containers: loading {o} via {how} gives a different database than "
+                        f"loading {ref_order} ({err or [(x['path'], x['left'], x['right']) for x in d]})"[:600]))
+    return len(imgs), out
+
+
+def _wxdoc(task):
+    code, exhaustive, hows = task
+    try:
+        return code, xdoc_findings(code, exhaustive, hows)
+    except Exception as e:
+        return code, (0, [(["harness"], "foreign:" + type(e).__name__, {"kind": "xdoc-order", "code": code}, "harness: " + str(e)[:200])])
+
+
+def xdoc_checks(ctx, pool, big):
+    """every partition of the hierarchy; quick: every order for up to three containers, 11 / 14 chosen orders for four / five"""
+    parts = R.xdoc_partitions()
+    all_hows = ("trees", "zip", "trees-stepwise", "files", "dir", "trees-refresh-twice", "odxfile", "pdxpath", "zipobj")
+    tasks = [(c, big, all_hows if (i % 4 == 0 or big) else ("trees", "zip", "trees-stepwise", "trees-refresh-twice")) for i, c in enumerate(parts)]
+    for code, (n, findings) in pool.map(_wxdoc, tasks, chunksize=1):
+        ctx.count("xdoc_orders", n)
+        ctx.histo("xdoc_containers", len(set(code)))
+        for j in range(n):
+            ctx.case(("xdoc-order", code, j))
+        for feats, obs, wit, what in findings:
+            if feats == ["harness"]:
+                ctx.notes.append(f"xdoc {code}: {what}")
+                continue
+            ctx.violate("load-order-independence", feats, obs, wit, what)
+
+
+# ---- derived state against the Lean model
+def _ddds(attr):
+    return lambda dl: list(getattr(dl.diag_layer_raw.diag_data_dictionary_spec, attr)) if dl.diag_layer_raw.diag_data_dictionary_spec is not None else []
+
+def _unit_groups(dl):
+    us = dl.diag_data_dictionary_spec.unit_spec
+    return list(us.unit_groups) if us is not None else []
+
+# object category -> (local objects of a layer, NOT-INHERITED list of a parent ref, what the layer offers after refresh())
+EFFECTIVE_CATEGORIES = [
+    ("diag_comms", lambda dl: list(dl._get_local_diag_comms(None)), lambda pr: pr.not_inherited_diag_comms, lambda dl: list(dl.diag_comms)),
+    ("global_negative_responses", lambda dl: list(dl.diag_layer_raw.global_negative_responses), lambda pr: pr.not_inherited_global_neg_responses,
+     lambda dl: list(dl.global_negative_responses)),
+    ("data_object_props", _ddds("data_object_props"), lambda pr: pr.not_inherited_dops, lambda dl: list(dl.diag_data_dictionary_spec.data_object_props)),
+    ("tables", _ddds("tables"), lambda pr: pr.not_inherited_tables, lambda dl: list(dl.diag_data_dictionary_spec.tables)),
+    ("functional_classes", lambda dl: list(dl.diag_layer_raw.functional_classes), lambda pr: [], lambda dl: list(dl.functional_classes)),
+    ("additional_audiences", lambda dl: list(dl.diag_layer_raw.additional_audiences), lambda pr: [], lambda dl: list(dl.additional_audiences)),
+    ("state_charts", lambda dl: list(dl.diag_layer_raw.state_charts), lambda pr: [], lambda dl: list(dl.state_charts)),
+    ("unit_groups", lambda dl: list(dl._get_local_unit_groups()), lambda pr: [], _unit_groups),
+]
+
+
+def effective_lines(db, fuel=8):
+    """-> [(category, request line, expected reply of the model = what the implementation derived)]"""
+    layers = [dl for dlc in db.diag_layer_containers for dl in dlc.diag_layers]
+    num = {id(dl): i + 1 for i, dl in enumerate(layers)}
+    files = [f"(f {dlc.short_name} dlc f 1 " + " ".join(f"({dl.odx_id.local_id} {num[id(dl)]})" for dl in dlc.diag_layers) + ")"
+             for dlc in db.diag_layer_containers]
+    files += [f"(f {c.short_name} subset f 1)" for c in db.comparam_subsets] + [f"(f {c.short_name} spec f 1)" for c in db.comparam_specs]
+    keys = [(dl.odx_id.doc_fragments[0].doc_name, dl.odx_id.local_id) for dl in layers]
+    cpnum = {}
+
+    def cptag(cp):
+        return cpnum.setdefault(id(cp), len(cpnum) + 1)
+    cps_raw = {id(dl): " ".join(f"({cptag(cp)} {cp.spec_ref.ref_id} {cp.protocol_snref or '-'})" for cp in getattr(dl.diag_layer_raw, "comparam_refs", []))
+               for dl in layers}
+    cps_impl = {}
+    for dl in layers:
+        if hasattr(dl, "comparam_refs"):
+            cps_impl[id(dl)] = "(cps" + "".join(f" {cptag(cp)}" for cp in dl.comparam_refs) + ")"
+    out = []
+    for cat, local_of, ni_of, eff_of in EFFECTIVE_CATEGORIES:
+        names, reps = {}, {}
+
+        def obj(o):
+            n = names.setdefault(o.short_name, len(names) + 1)
+            rs = reps.setdefault(n, [])
+            for j, r in enumerate(rs):
+                try:
+                    same = r is o or r == o
+                except Exception:
+                    same = r is o
+                if same:
+                    return f"({n} {j + 1})"
+            rs.append(o)
+            return f"({n} {len(rs)})"
+        raws, expect = [], []
+        for dl in layers:
+            prs = ""
+            for pr in getattr(dl.diag_layer_raw, "parent_refs", []):
+                ref = pr.layer_ref
+                excl = " ".join(str(names.setdefault(x, len(names) + 1)) for x in ni_of(pr))
+                prs += f" (({ref.ref_docs[0].doc_name} {ref.ref_id}){' ' + excl if excl else ''})"
+            raws.append(f"(o {num[id(dl)]} {dl.variant_type.value} (cps {cps_raw[id(dl)]}) (locals {' '.join(obj(o) for o in local_of(dl))}) (parents{prs}))")
+        for dl, (fr, i) in zip(layers, keys):
+            try:
+                objs = "(objs ok" + "".join(" " + obj(o) for o in eff_of(dl)) + ")"
+            except AttributeError:
+                objs = None          # ECU-SHARED-DATA layers do not offer this category
+            expect.append((fr, i, cps_impl.get(id(dl)), objs))
+        line = f"(effective {fuel} (files {' '.join(files)}) (raw {' '.join(raws)}) (keys {' '.join(f'({a} {b})' for a, b in keys)}))"
+        out.append((cat, line, expect))
+    return out
+
+
+def effective_compare(reply, expect):
+    """the parts of the model's reply that the implementation answers differently: [(layer, what, model, implementation)]"""
+    import re
+    got = re.findall(r"\(l (\S+) (\S+) (\(cps[^()]*\)) (\(objs(?:[^()]|\([^()]*\))*\))\)", reply)
+    if len(got) != len(expect):
+        return [("*", "reply", reply[:200], f"{len(expect)} layers")]
+    bad = []
+    for (fr, i, cps, objs), (fr2, i2, icps, iobjs) in zip(got, expect):
+        norm = lambda s: re.sub(r"\s+", " ", s).replace(" )", ")")
+        if icps is not None and norm(cps) != norm(icps):
+            bad.append((f"{fr}/{i}", "comparam_refs", cps, icps))
+        if iobjs is not None and norm(objs) != norm(iobjs):
+            bad.append((f"{fr}/{i}", "objects", objs, iobjs))
+    return bad
+
+
+def effective_model_correspondence(ctx, big):
+    """the derived state of the layers (comparam_refs and, per object category, the objects a layer ends up with) in the real
+    database after refresh() against the Lean model (`Pdx.effectiveComparams` / `Pdx.effectiveObjects`: PARENT-REF chains unfolded
+    through the ODXLINK map, then the C15 / C09 models) -- on the shipped example, the hand-written multi-layer documents and the
+    cross-document hierarchy in every distribution over containers, documents parent first and child first"""
+    drv = ctx.driver("drv_pdx")
+    if not drv.available():
+        ctx.notes.append("drv_pdx not built: effective-state correspondence skipped")
+        return
+    parts = R.xdoc_partitions()
+    if not big:
+        parts = [c for c in parts if len(set(c)) in (1, 2, 5)]
+    srcs = ["example:" + f.name for f in example_files()] + ["rich:rmeta"] + seq_sources()
+    srcs += [f"xdoc:{c}{r}" for c in parts for r in ("", ":rev") if r == "" or len(set(c)) > 1]
+    lines, exps = [], []
+    for src in srcs:
+        try:
+            with warnings.catch_warnings():
+                warnings.simplefilter("ignore")
+                db = open_db(src, ctx.seed)
+                for cat, line, expect in effective_lines(db):
+                    lines.append(line)
+                    exps.append((src, cat, expect))
+        except Exception as e:
+            ctx.histo("effective_model_unusable", src.split(":")[0] + ":" + L.err_class(e))     # (reported by the direct oracle)
+    for reply, line, (src, cat, expect) in zip(drv.query(lines), lines, exps):
+        ctx.traces += 1
+        ctx.histo("effective_model_category", cat)
+        bad = effective_compare(reply, expect)
+        if bad:
+            lay, what, model, impl = bad[0]
+            ctx.disagree("effective-state-model", f"{src} {cat} layer {lay} {what}: {line}"[:1500], model, impl)
 
 
 def mini_doc(frag, kind, version):
@@ -1088,11 +1372,27 @@ def run(ctx):
         gens = [f"gen:{i}" for i in range(n_gen)]
     except Exception as e:
         ctx.notes.append("harness/odxgen not importable (" + type(e).__name__ + "): generated documents skipped")
-    whole = examples + rich + ["rich:rvars", "rich:rwide", "richall"] + seq_sources() + gens
+    # the cross-document hierarchy: one container, one container per layer, and each way of cutting the chain of layers into
+    # two documents, loaded parent first and child first (the written archive has the containers in the order of the database)
+    xparts = R.xdoc_partitions()
+    xsel = [c for c in xparts if len(set(c)) in (1, 5) or c in ("01111", "00111", "00011", "00001", "01000", "00100", "00010", "01010")]
+    if big:
+        xsel = xparts
+    xdocs = [f"xdoc:{c}{r}" for c in xsel for r in ("", ":rev") if r == "" or len(set(c)) > 1]
+    whole = examples + rich + ["rich:rvars", "rich:rwide", "richall"] + seq_sources() + xdocs + gens
     donors = examples[:1] + rich
+
+    import time
+    phases, t_last = [], [time.time()]
+
+    def phase(name):
+        now = time.time()
+        phases.append(f"{name} {now - t_last[0]:.1f}s")
+        t_last[0] = now
 
     # ---- 0. write sequences (fresh processes; before this process has written anything)
     write_sequences(ctx, ctx.sub_rng("sequence"), 6 if big else 2)
+    phase("write-sequences")
 
     with mp.get_context("fork").Pool(nproc, initializer=_winit, initargs=(str(common.REPO), ctx.seed)) as pool:
         # ---- 1. whole-database round trips (the main clause)
@@ -1116,6 +1416,7 @@ def run(ctx):
                 ctx.violate(clause, feats, obs, {"kind": "roundtrip", "src": r["src"], "seed": ctx.seed, "detail": detail},
                             f"{r['src']}: {clause} {feats} {obs}: {detail}"[:400])
         ctx.count("element_classes_in_databases", len(classes))
+        phase("roundtrips")
         ctx.sample({"roundtrip": [(r["src"], r["objects"], len(r["findings"])) for r in rts[:10]]})
 
         # ---- 2. single-field perturbations: corpus first, then every (class, field)
@@ -1155,6 +1456,10 @@ def run(ctx):
         for r in results:
             report_perturbation(ctx, r)
         ctx.count("perturbations", len(results))
+        phase("perturbations")
+        # ---- 2b. the cross-document hierarchy in every distribution over documents and every document order
+        xdoc_checks(ctx, pool, big)
+        phase("xdoc-orders")
         ctx.sample({"perturbation": {k: results[len(corpus)][k] for k in ("src", "path", "field", "kind", "status")}} if len(results) > len(corpus) else {})
 
     # ---- 3. load order and entry points
@@ -1169,12 +1474,16 @@ def run(ctx):
     # layers that inherit across documents (PARENT-REF with DOCREF): the derived layer's container before / behind its parent's
     for n in R.seq_variants():
         order_checks(ctx, "seq:" + n, seq_members(n), rng, 2)
+    phase("load-orders")
     order_model_correspondence(ctx, ctx.sub_rng("ordermodel"), 3000 if big else 400)
+    effective_model_correspondence(ctx, big)
     dispatch_correspondence(ctx)
+    phase("order-model")
 
     # ---- 4. escaping
     escape_correspondence(ctx, ctx.sub_rng("escape"), 12000 if big else 1500)
 
+    phase("escape")
     # ---- 5. extractor cross-checks + explanation of a failing table obligation
     schema = getattr(ctx, "schema", None)
     if schema is not None:
@@ -1199,6 +1508,8 @@ def run(ctx):
         ctx.count("schema_gaps_not_excused", len(gaps))
         if gaps:
             ctx.notes.append("read-but-not-written slots not excused in Props/C11.lean (C11_schema_table cannot hold): " + str(gaps[:12]))
+    phase("extractor-cross-checks")
+    ctx.notes.append("wall time per phase of run(): " + ", ".join(phases))
     # informational: what depends on the entry point by construction
     ctx.notes.append("Database.short_name comes from index.xml and is only set by add_pdx_file; keys of auxiliary_files are member names "
                      "(archive), bare names (load_directory) or full paths (load_files) — outside the observed containers")
@@ -1244,6 +1555,17 @@ def replay(ctx, data):
         tmp = tempfile.mkdtemp(prefix="c11_")
         try:
             img, _ = order_images(members, w["order"], w["how"], tmp)
+        finally:
+            shutil.rmtree(tmp, ignore_errors=True)
+        return img is not None and img == ref
+    if kind == "xdoc-order":
+        members = {n: x.encode() for n, x in R.xdoc_members(w["code"]).items()}
+        tmp = tempfile.mkdtemp(prefix="c11_")
+        try:
+            os.mkdir(os.path.join(tmp, "a"))
+            os.mkdir(os.path.join(tmp, "b"))
+            ref, _ = order_images(members, w.get("ref_order") or R.xdoc_parent_first(w["code"]), "trees", os.path.join(tmp, "a"))
+            img, _ = order_images(members, w["order"], w["how"], os.path.join(tmp, "b"))
         finally:
             shutil.rmtree(tmp, ignore_errors=True)
         return img is not None and img == ref
